@@ -671,6 +671,8 @@ impl BytesMut {
 
         debug_assert_eq!(kind, KIND_ARC);
         let shared: *mut Shared = self.data;
+        #[cfg(tokio_rs_bytes_verif)]
+        crate::verif::point(crate::verif::pt::RESERVE_ARC_ENTRY);
 
         // Reserving involves abandoning the currently shared buffer and
         // allocating a new vector with the requested capacity.
@@ -686,6 +688,8 @@ impl BytesMut {
             // First, try to reclaim the buffer. This is possible if the current
             // handle is the only outstanding handle pointing to the buffer.
             if (*shared).is_unique() {
+                #[cfg(tokio_rs_bytes_verif)]
+                crate::verif::point(crate::verif::pt::RESERVE_UNIQUE);
                 // This is the only handle to the buffer. It can be reclaimed.
                 // However, before doing the work of copying data, check to make
                 // sure that the vector has enough capacity.
@@ -759,6 +763,8 @@ impl BytesMut {
             return false;
         }
 
+        #[cfg(tokio_rs_bytes_verif)]
+        crate::verif::point(crate::verif::pt::RESERVE_NOT_UNIQUE);
         let original_capacity_repr = unsafe { (*shared).original_capacity_repr };
         let original_capacity = original_capacity_from_repr(original_capacity_repr);
 
@@ -1016,6 +1022,8 @@ impl BytesMut {
     }
 
     unsafe fn promote_to_shared(&mut self, ref_cnt: usize) {
+        #[cfg(tokio_rs_bytes_verif)]
+        crate::verif::point(crate::verif::pt::PROMOTE_TO_SHARED);
         debug_assert_eq!(self.kind(), KIND_VEC);
         debug_assert!(ref_cnt == 1 || ref_cnt == 2);
 
@@ -1423,6 +1431,8 @@ impl<'a> FromIterator<&'a u8> for BytesMut {
  */
 
 unsafe fn increment_shared(ptr: *mut Shared) {
+    #[cfg(tokio_rs_bytes_verif)]
+    crate::verif::point(crate::verif::pt::INCREMENT_SHARED_ENTRY);
     let old_size = (*ptr).ref_count.fetch_add(1, Ordering::Relaxed);
 
     if old_size > isize::MAX as usize {
@@ -1431,8 +1441,12 @@ unsafe fn increment_shared(ptr: *mut Shared) {
 }
 
 unsafe fn release_shared(ptr: *mut Shared) {
+    #[cfg(tokio_rs_bytes_verif)]
+    crate::verif::point(crate::verif::pt::MUT_RELEASE_ENTRY);
     // `Shared` storage... follow the drop steps from Arc.
     if (*ptr).ref_count.fetch_sub(1, Ordering::Release) != 1 {
+        #[cfg(tokio_rs_bytes_verif)]
+        crate::verif::point(crate::verif::pt::MUT_RELEASE_NOT_LAST);
         return;
     }
 
@@ -1456,6 +1470,8 @@ unsafe fn release_shared(ptr: *mut Shared) {
     //
     // Thread sanitizer does not support atomic fences. Use an atomic load
     // instead.
+    #[cfg(tokio_rs_bytes_verif)]
+    crate::verif::point(crate::verif::pt::MUT_RELEASE_LAST);
     (*ptr).ref_count.load(Ordering::Acquire);
 
     // Drop the data
@@ -1722,12 +1738,16 @@ impl From<BytesMut> for Vec<u8> {
             let shared = bytes.data as *mut Shared;
 
             if unsafe { (*shared).is_unique() } {
+                #[cfg(tokio_rs_bytes_verif)]
+                crate::verif::point(crate::verif::pt::MUT_INTO_VEC_UNIQUE);
                 let vec = mem::replace(unsafe { &mut (*shared).vec }, Vec::new());
 
                 unsafe { release_shared(shared) };
 
                 vec
             } else {
+                #[cfg(tokio_rs_bytes_verif)]
+                crate::verif::point(crate::verif::pt::MUT_INTO_VEC_SHARED);
                 return ManuallyDrop::into_inner(bytes).deref().to_vec();
             }
         };
@@ -1784,6 +1804,8 @@ static SHARED_VTABLE: Vtable = Vtable {
 
 unsafe fn shared_v_clone(data: &AtomicPtr<()>, ptr: *const u8, len: usize) -> Bytes {
     let shared = data.load(Ordering::Relaxed) as *mut Shared;
+    #[cfg(tokio_rs_bytes_verif)]
+    crate::verif::point(crate::verif::pt::V_CLONE_ENTRY);
     increment_shared(shared);
 
     let data = AtomicPtr::new(shared as *mut ());
@@ -1794,6 +1816,8 @@ unsafe fn shared_v_to_vec(data: &AtomicPtr<()>, ptr: *const u8, len: usize) -> V
     let shared: *mut Shared = data.load(Ordering::Relaxed).cast();
 
     if (*shared).is_unique() {
+        #[cfg(tokio_rs_bytes_verif)]
+        crate::verif::point(crate::verif::pt::V_TO_VEC_UNIQUE);
         let shared = &mut *shared;
 
         // Drop shared
@@ -1806,6 +1830,8 @@ unsafe fn shared_v_to_vec(data: &AtomicPtr<()>, ptr: *const u8, len: usize) -> V
 
         vec
     } else {
+        #[cfg(tokio_rs_bytes_verif)]
+        crate::verif::point(crate::verif::pt::V_TO_VEC_SHARED);
         let v = slice::from_raw_parts(ptr, len).to_vec();
         release_shared(shared);
         v
@@ -1816,6 +1842,8 @@ unsafe fn shared_v_to_mut(data: &AtomicPtr<()>, ptr: *const u8, len: usize) -> B
     let shared: *mut Shared = data.load(Ordering::Relaxed).cast();
 
     if (*shared).is_unique() {
+        #[cfg(tokio_rs_bytes_verif)]
+        crate::verif::point(crate::verif::pt::V_TO_MUT_UNIQUE);
         let shared = &mut *shared;
 
         // The capacity is always the original capacity of the buffer
@@ -1835,6 +1863,8 @@ unsafe fn shared_v_to_mut(data: &AtomicPtr<()>, ptr: *const u8, len: usize) -> B
             data: shared,
         }
     } else {
+        #[cfg(tokio_rs_bytes_verif)]
+        crate::verif::point(crate::verif::pt::V_TO_MUT_SHARED);
         let v = slice::from_raw_parts(ptr, len).to_vec();
         release_shared(shared);
         BytesMut::from_vec(v)
